@@ -75,8 +75,13 @@ func loadSourceLists() (active, depr, exc []string, err error) {
 
 var genFiles = []string{"get_licenses.go", "get_deprecated.go", "get_exceptions.go"}
 
-// runGenerator copies the working tree (without .git) to a scratch dir, runs the real generator
-// there and returns, per generated file, whether it equals the committed one.
+// runGenerator copies the working tree (without .git) to a scratch dir, builds the real generator
+// there and runs it once per scenario. A scenario fixes the state of the output directory before the
+// run (the three generated files absent / as committed / lengthened by a hand edit / cut short) and the
+// JSON it reads (as committed, or with one entry retired, removed or added at the first, a middle or
+// the last position: a refresh). The result maps "scenario/file" to "" or to what is wrong; with the
+// committed JSON the output must equal the committed file byte for byte, with an edited JSON it must
+// equal the committed file's own header + one line per id the edited JSON gives + footer.
 func runGenerator() (map[string]string, error) {
 	scratch, err := os.MkdirTemp("", "spdxmc-gen-")
 	if err != nil {
@@ -87,43 +92,207 @@ func runGenerator() (map[string]string, error) {
 	if out, err := cp.CombinedOutput(); err != nil {
 		return nil, fmt.Errorf("copy: %v: %s", err, out)
 	}
-	for _, f := range genFiles {
-		os.Remove(filepath.Join(scratch, "spdxexp", "spdxlicenses", f))
+	cmdDir := filepath.Join(scratch, "cmd")
+	outDir := filepath.Join(scratch, "spdxexp", "spdxlicenses")
+	build := exec.Command("go", "build", "-o", "verif-gen", ".")
+	build.Dir = cmdDir
+	build.Env = append(os.Environ(), "GOFLAGS=-mod=mod", "GOPROXY=off", "GOSUMDB=off", "GOTOOLCHAIN=local", "GOMAXPROCS=4")
+	if out, err := build.CombinedOutput(); err != nil {
+		return nil, fmt.Errorf("generator does not build: %v: %s", err, out)
 	}
-	cmd := exec.Command("go", "run", ".", "extract", "-l", "-e")
-	cmd.Dir = filepath.Join(scratch, "cmd")
-	cmd.Env = append(os.Environ(), "GOFLAGS=-mod=mod", "GOPROXY=off", "GOSUMDB=off", "GOTOOLCHAIN=local", "GOMAXPROCS=4")
-	if out, err := cmd.CombinedOutput(); err != nil {
-		return nil, fmt.Errorf("generator failed: %v: %s", err, out)
+	committed := map[string][]byte{}
+	for _, f := range genFiles {
+		b, err := os.ReadFile(filepath.Join(repoRoot, "spdxexp", "spdxlicenses", f))
+		if err != nil {
+			return nil, fmt.Errorf("%s not in the repository: %v", f, err)
+		}
+		committed[f] = b
+	}
+	origJSON := map[string][]byte{}
+	for _, f := range []string{"licenses.json", "exceptions.json"} {
+		b, err := os.ReadFile(filepath.Join(cmdDir, f))
+		if err != nil {
+			return nil, err
+		}
+		origJSON[f] = b
 	}
 	res := map[string]string{}
-	for _, f := range genFiles {
-		a, e1 := os.ReadFile(filepath.Join(scratch, "spdxexp", "spdxlicenses", f))
-		b, e2 := os.ReadFile(filepath.Join(repoRoot, "spdxexp", "spdxlicenses", f))
-		switch {
-		case e1 != nil:
-			res[f] = "generator did not write it: " + e1.Error()
-		case e2 != nil:
-			res[f] = "not in the repository: " + e2.Error()
-		case !bytes.Equal(a, b):
-			la, lb := strings.Split(string(a), "\n"), strings.Split(string(b), "\n")
-			i := 0
-			for i < len(la) && i < len(lb) && la[i] == lb[i] {
-				i++
+	run := func(scn string, start func(f string) []byte, jsons map[string][]byte, want map[string][]byte) error {
+		for f, b := range jsons {
+			if err := os.WriteFile(filepath.Join(cmdDir, f), b, 0o644); err != nil {
+				return err
 			}
-			ga, gb := "<eof>", "<eof>"
-			if i < len(la) {
-				ga = la[i]
+		}
+		for _, f := range genFiles {
+			p := filepath.Join(outDir, f)
+			os.Remove(p)
+			if b := start(f); b != nil {
+				if err := os.WriteFile(p, b, 0o644); err != nil {
+					return err
+				}
 			}
-			if i < len(lb) {
-				gb = lb[i]
+		}
+		cmd := exec.Command("./verif-gen", "extract", "-l", "-e")
+		cmd.Dir = cmdDir
+		cmd.Env = append(os.Environ(), "GOMAXPROCS=2")
+		if out, err := cmd.CombinedOutput(); err != nil {
+			for _, f := range genFiles {
+				res[scn+"/"+f] = fmt.Sprintf("generator failed: %v: %s", err, first(string(out), 300))
 			}
-			res[f] = fmt.Sprintf("differs from regenerated output at line %d: generator %q, committed %q", i+1, strings.TrimSpace(ga), strings.TrimSpace(gb))
-		default:
-			res[f] = ""
+			return nil
+		}
+		for _, f := range genFiles {
+			a, e1 := os.ReadFile(filepath.Join(outDir, f))
+			b := want[f]
+			switch {
+			case e1 != nil:
+				res[scn+"/"+f] = "generator did not write it: " + e1.Error()
+			case !bytes.Equal(a, b):
+				la, lb := strings.Split(string(a), "\n"), strings.Split(string(b), "\n")
+				i := 0
+				for i < len(la) && i < len(lb) && la[i] == lb[i] {
+					i++
+				}
+				ga, gb := "<eof>", "<eof>"
+				if i < len(la) {
+					ga = la[i]
+				}
+				if i < len(lb) {
+					gb = lb[i]
+				}
+				res[scn+"/"+f] = fmt.Sprintf("differs from what the JSON says at line %d (%d bytes written, %d expected): generator %q, expected %q", i+1, len(a), len(b), strings.TrimSpace(ga), strings.TrimSpace(gb))
+			default:
+				res[scn+"/"+f] = ""
+			}
+		}
+		return nil
+	}
+	// output-directory states, committed JSON
+	stray := []byte(strings.Repeat("// stray hand edit\n", 20))
+	starts := []struct {
+		name string
+		fn   func(f string) []byte
+	}{
+		{"absent", func(string) []byte { return nil }},
+		{"as-committed", func(f string) []byte { return committed[f] }},
+		{"lengthened", func(f string) []byte { return append(append([]byte{}, committed[f]...), stray...) }},
+		{"cut-short", func(f string) []byte { return committed[f][:len(committed[f])/2] }},
+	}
+	for _, st := range starts {
+		if err := run("start:"+st.name, st.fn, origJSON, committed); err != nil {
+			return nil, err
+		}
+	}
+	// refreshes of the JSON, regenerated over the committed files
+	type jsrc struct{ file, arr, idKey, depKey string }
+	for _, js := range []jsrc{{"licenses.json", "licenses", "licenseId", "isDeprecatedLicenseId"}, {"exceptions.json", "exceptions", "licenseExceptionId", "isDeprecatedLicenseId"}} {
+		var doc map[string]any
+		if err := json.Unmarshal(origJSON[js.file], &doc); err != nil {
+			return nil, err
+		}
+		arr, _ := doc[js.arr].([]any)
+		if len(arr) < 3 {
+			continue
+		}
+		for _, where := range []struct {
+			name string
+			i    int
+		}{{"first", 0}, {"middle", len(arr) / 2}, {"last", len(arr) - 1}} {
+			for _, edit := range []string{"retire", "remove", "add"} {
+				cp := make([]any, 0, len(arr)+1)
+				for i, e := range arr {
+					m, _ := e.(map[string]any)
+					switch {
+					case i == where.i && edit == "remove":
+						continue
+					case i == where.i && edit == "retire":
+						m2 := map[string]any{}
+						for k, v := range m {
+							m2[k] = v
+						}
+						d, _ := m[js.depKey].(bool)
+						m2[js.depKey] = !d
+						cp = append(cp, m2)
+						continue
+					case i == where.i && edit == "add":
+						cp = append(cp, map[string]any{js.idKey: "Verif-Added-1.0", js.depKey: false})
+					}
+					cp = append(cp, e)
+				}
+				doc2 := map[string]any{}
+				for k, v := range doc {
+					doc2[k] = v
+				}
+				doc2[js.arr] = cp
+				nb, err := json.Marshal(doc2)
+				if err != nil {
+					return nil, err
+				}
+				jsons := map[string][]byte{"licenses.json": origJSON["licenses.json"], "exceptions.json": origJSON["exceptions.json"]}
+				jsons[js.file] = nb
+				// expected files by the model: header and footer of the committed file, ids of the edited JSON
+				var act, dep, exc []string
+				idsOf := func(b []byte, arrKey, idKey string, wantDep, all bool) []string {
+					var d map[string]any
+					json.Unmarshal(b, &d)
+					var out []string
+					l, _ := d[arrKey].([]any)
+					for _, e := range l {
+						m, _ := e.(map[string]any)
+						id, _ := m[idKey].(string)
+						isDep, _ := m["isDeprecatedLicenseId"].(bool)
+						if all || isDep == wantDep {
+							out = append(out, id)
+						}
+					}
+					return out
+				}
+				act = idsOf(jsons["licenses.json"], "licenses", "licenseId", false, false)
+				dep = idsOf(jsons["licenses.json"], "licenses", "licenseId", true, false)
+				exc = idsOf(jsons["exceptions.json"], "exceptions", "licenseExceptionId", false, false)
+				want := map[string][]byte{
+					"get_licenses.go":   modelGenFile(committed["get_licenses.go"], act),
+					"get_deprecated.go": modelGenFile(committed["get_deprecated.go"], dep),
+					"get_exceptions.go": modelGenFile(committed["get_exceptions.go"], exc),
+				}
+				scn := fmt.Sprintf("refresh:%s:%s-%s", js.file, edit, where.name)
+				if err := run(scn, func(f string) []byte { return committed[f] }, jsons, want); err != nil {
+					return nil, err
+				}
+			}
 		}
 	}
 	return res, nil
+}
+
+// modelGenFile: the committed file's own header (up to the first id line) and footer (after the last
+// id line) around one line per id.
+func modelGenFile(committed []byte, ids []string) []byte {
+	lines := strings.SplitAfter(string(committed), "\n")
+	isID := func(l string) bool { return strings.HasPrefix(l, "\t\t\"") && strings.HasSuffix(l, "\",\n") }
+	firstID, lastID := -1, -1
+	for i, l := range lines {
+		if isID(l) {
+			if firstID < 0 {
+				firstID = i
+			}
+			lastID = i
+		}
+	}
+	if firstID < 0 {
+		return committed
+	}
+	var b bytes.Buffer
+	for _, l := range lines[:firstID] {
+		b.WriteString(l)
+	}
+	for _, id := range ids {
+		b.WriteString("\t\t\"" + id + "\",\n")
+	}
+	for _, l := range lines[lastID+1:] {
+		b.WriteString(l)
+	}
+	return b.Bytes()
 }
 
 // exception forms that must be rejected
@@ -199,7 +368,7 @@ func init() {
 		ID:       "C12",
 		Title:    "shipped license tables = SPDX source data",
 		Explorer: "E1 complete enumeration of a finite configuration (every id of both JSON files and of the three Go tables) + real generator re-run",
-		Rule: "state = one id in one role/form; transitions = ValidateLicenses/ExtractLicenses calls on it; the generator is re-run in a scratch copy of the working tree and its three outputs compared byte for byte; " +
+		Rule: "state = one id in one role/form; transitions = ValidateLicenses/ExtractLicenses calls on it; the generator is built in a scratch copy of the working tree and run once per scenario = (state of the output files before the run: absent / as committed / lengthened / cut short) or (one JSON entry retired / removed / added at the first, middle, last position, regenerated over the committed files), its three outputs compared byte for byte with the committed files resp. with header + ids of the edited JSON + footer; " +
 			"JSON-derived sequences compared with GetLicenses/GetDeprecated/GetExceptions; lists checked pairwise disjoint and fold-unique; every license id accepted alone, every exception id accepted after WITH and rejected in 11 other forms; each table getter called, its result overwritten / filtered in place / appended to, and called again (the tables must not be reachable through what a getter returns); " +
 			"non-trivial = ids checked in the exception-rejection forms and suffix forms (where acceptance is not a plain list lookup)",
 		Assumptions: []string{"encoding/json with the generator's own field names is the reading of the SPDX JSON", "the stale cmd/*_ids.json|txt files are not produced by the current generator and are outside the claim"},
@@ -295,17 +464,26 @@ func c12Run(c *Ctx) {
 		if err != nil {
 			c.NotExhaustive("generator run failed (infrastructure): " + err.Error())
 		} else {
-			for _, f := range genFiles {
+			var keys []string
+			for k := range res {
+				keys = append(keys, k)
+			}
+			sortStrings(keys)
+			for _, k := range keys {
 				c.Inc("states")
 				c.Inc("transitions")
 				c.Inc("evaluations")
-				c.Outcome("generated-file-compared")
-				if res[f] != "" {
-					c.Report(Violation{Kind: "c12.case", Class: "generator", Key: "gen:" + f, Msg: f + " " + res[f], Size: 1, Case: mustJSON(c12Case{Kind: "gen", File: f})})
+				c.Inc("traces")
+				if !strings.HasPrefix(k, "start:absent/") {
+					c.Inc("nontrivial")
+				}
+				c.Outcome("generated-file-compared:" + strings.SplitN(k, ":", 2)[0])
+				if res[k] != "" {
+					c.Report(Violation{Kind: "c12.case", Class: "generator:" + strings.SplitN(k, ":", 2)[0], Key: "gen:" + k, Msg: k + " " + res[k], Size: 1 + len(k), Case: mustJSON(c12Case{Kind: "gen", File: k})})
 				}
 			}
 			c.Sample(func() any {
-				return map[string]any{"generator": "go run . extract -l -e (scratch copy)", "files_compared": genFiles}
+				return map[string]any{"generator": "cmd built in a scratch copy, run as: extract -l -e", "files_compared": genFiles, "scenarios": len(res) / len(genFiles)}
 			})
 		}
 		for _, f := range append(c12Static(), c12Isolation()...) {
